@@ -240,6 +240,8 @@ type Chain struct {
 	votePeriod   uint64
 	includedAtt  map[[2]uint64]bool // (slot, committee index) already included
 	seenAttData  []refspec.Attestation
+	// MergeAtSlot: bellatrix blocks before this slot carry the default payload (the merge transition has not happened yet)
+	MergeAtSlot uint64
 }
 
 type GenesisOpts struct {
@@ -354,6 +356,8 @@ type Plan struct {
 	BadStateRoot      bool
 	// WithholdCurrentEpoch: attestations whose target is the block's own epoch are not included (they arrive in the next epoch: late inclusion)
 	WithholdCurrentEpoch bool
+	// MinAttDelay: only attestations at least this many slots old are included (0 = the minimum inclusion delay)
+	MinAttDelay uint64
 }
 
 type Built struct {
@@ -443,7 +447,11 @@ func (c *Chain) BuildBlock(slot uint64, plan Plan) (*Built, error) {
 		if back == 0 {
 			back = 1
 		}
-		for d := sp.MIN_ATTESTATION_INCLUSION_DELAY; d <= back && d <= slot; d++ {
+		first := sp.MIN_ATTESTATION_INCLUSION_DELAY
+		if plan.MinAttDelay > first {
+			first = plan.MinAttDelay
+		}
+		for d := first; d <= back && d <= slot; d++ {
 			s := slot - d
 			if fork < refspec.Deneb && slot > s+sp.SLOTS_PER_EPOCH {
 				break
@@ -534,7 +542,13 @@ func (c *Chain) BuildBlock(slot uint64, plan Plan) (*Built, error) {
 		}
 	}
 	// execution payload
-	if fork >= refspec.Bellatrix {
+	preMerge := fork == refspec.Bellatrix && slot < c.MergeAtSlot && !sp.IsMergeTransitionComplete(pre)
+	if preMerge {
+		body.ExecutionPayload.LogsBloom = make([]byte, sp.BYTES_PER_LOGS_BLOOM)
+		body.ExecutionPayload.ExtraData = []byte{}
+		ops["pre_merge_block"]++
+	}
+	if fork >= refspec.Bellatrix && !preMerge {
 		pl := &body.ExecutionPayload
 		pl.LogsBloom = make([]byte, sp.BYTES_PER_LOGS_BLOOM)
 		pl.ExtraData = []byte{}
@@ -633,11 +647,29 @@ func (c *Chain) slashableValidators(st *refspec.State, exclude uint64) []uint64 
 	var out []uint64
 	cur := c.Sp.CurrentEpoch(st)
 	for i := range st.Validators {
-		if uint64(i) != exclude && refspec.IsSlashable(&st.Validators[i], cur) && refspec.IsActive(&st.Validators[i], cur) {
+		if uint64(i) != exclude && refspec.IsSlashable(&st.Validators[i], cur) {
 			out = append(out, uint64(i))
 		}
 	}
 	return out
+}
+
+// exitedFirst moves the slashable validators that already exited (but are not withdrawable yet) to the front in 2 of 3 calls:
+// the slashability window ends at withdrawable_epoch, not at exit_epoch.
+func (c *Chain) exitedFirst(st *refspec.State, cands []uint64) (nExited int) {
+	cur := c.Sp.CurrentEpoch(st)
+	if c.Rng.IntN(3) == 0 {
+		return 0
+	}
+	sort.SliceStable(cands, func(i, j int) bool {
+		return st.Validators[cands[i]].ExitEpoch <= cur && !(st.Validators[cands[j]].ExitEpoch <= cur)
+	})
+	for _, v := range cands {
+		if st.Validators[v].ExitEpoch <= cur {
+			nExited++
+		}
+	}
+	return nExited
 }
 
 func (c *Chain) makeProposerSlashing(st *refspec.State, blockProposer uint64) (refspec.ProposerSlashing, bool) {
@@ -647,6 +679,9 @@ func (c *Chain) makeProposerSlashing(st *refspec.State, blockProposer uint64) (r
 		return refspec.ProposerSlashing{}, false
 	}
 	v := cands[c.Rng.IntN(len(cands))]
+	if n := c.exitedFirst(st, cands); n > 0 {
+		v = cands[c.Rng.IntN(n)]
+	}
 	hs := st.Slot
 	if hs > 0 && c.Rng.IntN(2) == 0 {
 		hs -= uint64(c.Rng.IntN(int(min(hs, sp.SLOTS_PER_EPOCH*2)) + 1))
@@ -667,6 +702,7 @@ func (c *Chain) makeAttesterSlashing(st *refspec.State, blockProposer uint64) (r
 	}
 	n := 1 + c.Rng.IntN(min(4, len(cands)))
 	c.Rng.Shuffle(len(cands), func(i, j int) { cands[i], cands[j] = cands[j], cands[i] })
+	c.exitedFirst(st, cands) // a mix of exited and active validators when some exited ones are still slashable
 	idx := append([]uint64{}, cands[:n]...)
 	sort.Slice(idx, func(i, j int) bool { return idx[i] < idx[j] })
 	te := sp.CurrentEpoch(st)
@@ -874,7 +910,7 @@ func hfn() tree.HashFn { return tree.GetHashFn() }
 // a node do), and its own view of the deposit contract.
 func (c *Chain) Sibling() (*Chain, error) {
 	zs := *c.ZSpec
-	s := &Chain{ZSpec: &zs, Sp: c.Sp, Keys: c.Keys, Rng: c.Rng, KeyOf: map[[48]byte]int{}, includedAtt: map[[2]uint64]bool{}, NextKey: c.NextKey, BlockNumber: c.BlockNumber}
+	s := &Chain{ZSpec: &zs, Sp: c.Sp, Keys: c.Keys, Rng: c.Rng, KeyOf: map[[48]byte]int{}, includedAtt: map[[2]uint64]bool{}, NextKey: c.NextKey, BlockNumber: c.BlockNumber, MergeAtSlot: c.MergeAtSlot}
 	for k, v := range c.KeyOf {
 		s.KeyOf[k] = v
 	}
